@@ -6,6 +6,7 @@ import (
 	"bytes"
 	"encoding/json"
 	"fmt"
+	"io"
 	mrand "math/rand"
 	"strings"
 
@@ -17,7 +18,8 @@ import (
 func init() { register("C18", "exploration", runC18) }
 
 type c18Case struct {
-	Spec gen.MsgSpec `json:"spec"`
+	Spec  gen.MsgSpec `json:"spec"`
+	Prior int         `json:"prior_renders,omitempty"` // the message has been rendered that often before the judged render
 }
 
 // headerText builds a header value from words of controlled lengths and blank patterns.
@@ -260,6 +262,9 @@ func runC18Case(r *ev.Run, c c18Case) {
 		r.HarnessError("C18 build: " + err.Error())
 		return
 	}
+	for k := 0; k < c.Prior; k++ {
+		_, _ = m.WriteTo(io.Discard)
+	}
 	var buf bytes.Buffer
 	if _, err := m.WriteTo(&buf); err != nil {
 		viol("render-error", "fault-free render failed: "+err.Error(), nil)
@@ -319,7 +324,11 @@ func runC18(r *ev.Run, rep *ev.ReplayDoc) ev.Summary {
 		if i%1201 == 0 {
 			r.Sample(map[string]any{"shape": s.Shape(), "subject": ev.Trunc(s.Subject, 120)})
 		}
-		runC18Case(r, c18Case{Spec: s})
+		c := c18Case{Spec: s}
+		if i%4 == 3 {
+			c.Prior = 1
+		}
+		runC18Case(r, c)
 	})
 	return sum
 }
